@@ -234,6 +234,14 @@ def _check_dc(inp, T, case):
             d = _dist_to_polyline(dc[k, 0], dc[k, 1], x, y)
             T.check(d <= TOL * ext, G, case, "dc.on: each design condition lies on the contour polygon",
                     f"point {dc[k].tolist()} is {d:.3g} away from the polygon (extent {ext:.3g})", inp)
+        if inp.get("expected_top"):
+            # the polygon is crossed (or touched along an edge) at every one of these abscissae: none may be omitted, and
+            # the ordinate is the largest one the polygon has there
+            want = {float(a): float(t) for a, t in inp["expected_top"]}
+            got = {float(a): float(t) for a, t in dc}
+            T.check(set(got) == set(want) and all(abs(got[a] - want[a]) <= TOL * ext for a in want), G, case,
+                    "dc.top: the design condition carries the largest ordinate among all intersections (abscissae through vertices / along edges included)",
+                    f"returned {sorted(got.items())}, the polygon's largest ordinates there: {sorted(want.items())}", inp)
         return
     # reference per abscissa
     ref = []
@@ -469,7 +477,8 @@ def _fixed_scenarios():
     for swap in (False, True):
         src = house if not swap else [[p[1], p[0]] for p in house]
         scen.append((f"dc/fixed-house/steps=list/swap={int(swap)}/on-vertical-edge",
-                     {"type": "dc", "source": {"kind": "poly", "coords": src}, "steps": [4.0, 2.5, 1.0, 3.0], "container": "list", "swap": swap, "degenerate": True}))
+                     {"type": "dc", "source": {"kind": "poly", "coords": src}, "steps": [4.0, 2.5, 1.0, 3.0], "container": "list", "swap": swap, "degenerate": True,
+                      "expected_top": [[4.0, -2.0], [2.5, -1.0], [1.0, -2.0], [3.0, -4.0 / 3.0]]}))
     return scen
 
 
